@@ -28,6 +28,8 @@ pub struct PbDfs {
     probe: Option<std::sync::Arc<std::sync::atomic::AtomicUsize>>,
     /// stop after this many executions (None = run to completion)
     max_iterations: Option<usize>,
+    /// stop starting new executions after this instant; the flag records that it happened
+    deadline: Option<(std::time::Instant, std::sync::Arc<std::sync::atomic::AtomicBool>)>,
 }
 
 impl PbDfs {
@@ -41,7 +43,20 @@ impl PbDfs {
             max_used: 0,
             probe: None,
             max_iterations: None,
+            deadline: None,
         }
+    }
+    /// exactly one execution under the default schedule (sequential reference runs of code that may
+    /// start threads of its own)
+    pub fn single() -> Self {
+        let mut s = Self::new(0);
+        s.max_iterations = Some(1);
+        s
+    }
+    /// give up (and set `flag`) when the search is still running at `at`
+    pub fn with_deadline(mut self, at: std::time::Instant, flag: std::sync::Arc<std::sync::atomic::AtomicBool>) -> Self {
+        self.deadline = Some((at, flag));
+        self
     }
     /// a single execution (the default schedule) that records its number of scheduling decisions
     pub fn probe(steps: std::sync::Arc<std::sync::atomic::AtomicUsize>) -> Self {
@@ -65,6 +80,12 @@ impl Scheduler for PbDfs {
         }
         if self.max_iterations.map(|m| self.iterations >= m).unwrap_or(false) {
             return None;
+        }
+        if let Some((at, flag)) = &self.deadline {
+            if self.iterations > 0 && std::time::Instant::now() > *at {
+                flag.store(true, std::sync::atomic::Ordering::SeqCst);
+                return None;
+            }
         }
         self.iterations += 1;
         self.steps = 0;
